@@ -160,3 +160,46 @@ def wellformed_message(mid: int, data_msg: bytes, public_key_bin: bytes) -> byte
     if mid == 20:
         return b"\x14" + ident + b"test-response-data"
     raise ValueError(mid)
+
+
+APP_PREFIX = b"\x00\x02" + b"C04-anonymized-ovrl!"      # prefix of an application overlay that asked for anonymity
+assert len(APP_PREFIX) == 22
+
+
+@lru_cache(maxsize=4096)
+def anon_packet(size: int, salt: int) -> bytes:
+    """An IPv8-shaped packet of the anonymized overlay: its prefix + `size` >= 1 bytes (MARKER included when it fits)."""
+    fill = bytes(((salt * 11 + 5 + 29 * i) ^ (i >> 8)) & 0xFF for i in range(size))
+    if size >= 17:
+        fill = fill[:1] + MARKER + fill[17:]
+    return APP_PREFIX + fill
+
+
+def anon_histories(k: int) -> list:
+    """
+    Every event sequence of an application that hands <= k packets (to destination A or B; the first one to A) to
+    TunnelEndpoint.send while the circuit the endpoint uses is absent / being built / ready / being removed / replaced:
+        sA | sB    send the next packet;  prebuild  somebody else (do_circuits) starts the circuit;
+        ready      the handshake completes;  remove  the ready circuit is removed (destroy sent);  expire  5 s later
+    Sequences end with a send or with `ready`; at most one removal.
+    """
+    out: list = []
+
+    def dfs(state: str, sends: int, removes: int, seq: list) -> None:
+        if seq and (seq[-1][0] == "s" or seq[-1] == "ready"):
+            out.append("-".join(seq))
+        if sends < k:
+            nxt = {"NONE": "BUILDING", "BUILDING": "BUILDING", "READY": "READY", "CLOSING": "CLOSING"}[state]
+            for d in ("A", "B") if sends else ("A",):
+                dfs(nxt, sends + 1, removes, [*seq, "s" + d])
+            if state == "NONE":
+                dfs("BUILDING", sends, removes, [*seq, "prebuild"])
+            if state == "READY" and removes < 1:
+                dfs("CLOSING", sends, removes + 1, [*seq, "remove"])
+            if state == "CLOSING":
+                dfs("NONE", sends, removes, [*seq, "expire"])
+        if state == "BUILDING":
+            dfs("READY", sends, removes, [*seq, "ready"])
+
+    dfs("NONE", 0, 0, [])
+    return out
